@@ -407,4 +407,76 @@ example :
         toS := some [0x39, 0x30, 0x30], toG := none }
       [.timeout 120000000] { tls := true, proxy := true, suppliedConn := false } = 120000000 := by decide
 
+/-! ## transport security of the trace/metric exporters -/
+
+private def pInsecure (parse : Parse) : Opt → Option Bool
+  | .user o => optInsecure parse o
+  | .envScheme u => some (toLower u.scheme == sHttp || toLower u.scheme == sUnix)
+  | .envInsecure b => some b
+  | .envEndpoint _ _ => none
+
+private theorem apply_insecure (exp : Exp) (parse : Parse) (c : Cfg) (o : Opt) :
+    (applyOpt exp parse c o).insecure = (pInsecure parse o).getD c.insecure := by
+  cases o with
+  | user u =>
+    cases u <;> simp [applyOpt, applyUser, pInsecure, optInsecure]
+    split <;> simp [*]
+  | envScheme u => rfl
+  | envEndpoint g u => simp only [applyOpt, pInsecure]; split <;> rfl
+  | envInsecure b => rfl
+
+private theorem ls_url_insecure (parse : Parse) (g : Bool) (v : Env) :
+    lastSome (pInsecure parse) (envUrlOpts parse g v) = provInsecureScheme parse v := by
+  unfold envUrlOpts provInsecureScheme
+  cases getEnvValue v with
+  | none => rfl
+  | some s => cases h : parse s <;> simp [lastSome, pInsecure, h]
+
+private theorem ls_bool_insecure (parse : Parse) (v : Env) :
+    lastSome (pInsecure parse) (envBoolOpts v) = provInsecureWord v := by
+  unfold envBoolOpts provInsecureWord
+  cases getEnvValue v <;> simp [lastSome, pInsecure]
+
+/-- INSECURE / SCHEME DECISION TABLE, otlptracehttp, otlptracegrpc, otlpmetrichttp, otlpmetricgrpc: whether the
+exporter talks clear text is decided by the last of the options `WithInsecure`, a "secure" option, `WithEndpointURL`
+(by its scheme: only `https` is secure); else by the signal-specific `…_INSECURE` variable, else the generic one (any
+non-empty value decides, only the word `true` is insecure); else by the scheme of the signal-specific endpoint
+variable, else of the generic one (`http`/`unix` clear text, anything else TLS); else secure — for all option lists,
+all environment values and every `url.Parse`. -/
+theorem tm_insecure_decision_table (exp : Exp) (hl : exp.isLog = false) (parse : Parse) (e : OtlpEnv)
+    (opts : List UOpt) : (newConfig exp parse e opts).insecure = expectedInsecureTM parse e opts := by
+  have h1 : (newConfig exp parse e opts).insecure =
+      ((envOpts parse e ++ opts.map Opt.user).foldl (applyOpt exp parse) (defaults exp)).insecure := by
+    unfold newConfig; simp only [hl, Bool.false_eq_true, if_false]
+    unfold newTMConfig; simp only; split <;> rfl
+  rw [h1, foldl_field (applyOpt exp parse) (·.insecure) (pInsecure parse) (apply_insecure exp parse)]
+  rw [lastSome_append, lastSome_map]
+  have h2 : (fun o => pInsecure parse (Opt.user o)) = optInsecure parse := by funext o; rfl
+  rw [h2]
+  unfold expectedInsecureTM
+  cases lastSome (optInsecure parse) opts with
+  | some v => rfl
+  | none =>
+    simp only [envOpts, lastSome_append, defaults, Option.getD]
+    rw [ls_to_none _ _ (fun _ => rfl), ls_to_none _ _ (fun _ => rfl),
+      ls_comp_none _ _ (fun _ => rfl), ls_comp_none _ _ (fun _ => rfl), ls_hdr_none _ _ (fun _ => rfl),
+      ls_hdr_none _ _ (fun _ => rfl), ls_bool_insecure, ls_bool_insecure, ls_url_insecure, ls_url_insecure]
+    cases provInsecureWord e.insS with
+    | some b => rfl
+    | none =>
+      cases provInsecureWord e.insG with
+      | some b => rfl
+      | none =>
+        cases provInsecureScheme parse e.epS with
+        | some b => rfl
+        | none => cases provInsecureScheme parse e.epG <;> rfl
+
+/-- non-vacuity: `OTEL_EXPORTER_OTLP_TRACES_INSECURE=false` beats an `http://` generic endpoint; `WithInsecure` beats both -/
+example :
+    let parse : Parse := fun _ => some { scheme := sHttp, host := [], path := [] }
+    let e : OtlpEnv := { epS := none, epG := some [0x68], insS := some [0x66, 0x61, 0x6c, 0x73, 0x65], insG := none,
+                          hdS := none, hdG := none, coS := none, coG := none, toS := none, toG := none }
+    (newConfig .th parse e []).insecure = false ∧ (newConfig .th parse e [.insecure]).insecure = true ∧
+    (newConfig .th parse { e with insS := none } []).insecure = true := by decide
+
 end Otel.C20
